@@ -59,6 +59,11 @@ def datasets(name, which):
         else:
             Y = X.isel(lon=slice(0, max(2, X.sizes["lon"] - 1))) * 0.7 + one(50 + (which if isinstance(which, int) else 9), n=X.sizes["time"], ny=X.sizes["lat"], nx=max(2, X.sizes["lon"] - 1), s0=int(X.time[0])).values
         Y.name = "slp"
+        if name == "multi.CCA" and which == 5:
+            # three views, then (fit6) two: a refit with ANOTHER NUMBER of views must behave like a fresh model
+            Z = one(9, n=X.sizes["time"], ny=2, nx=2, s0=int(X.time[0])) + 0.3 * X.isel(lat=slice(0, 2), lon=slice(0, 2)).values
+            Z.name = "z500"
+            return (X, Y, Z)
         return (X, Y)
     return X
 
@@ -89,6 +94,8 @@ def cases(seed, tier, broken=()):
         out.append({"cls": cls, "ops": ["fit0", "metrics", "compute", "scores", "metrics", "serialize", "components"]})
     for cls in ("EOF", "ComplexEOF", "SparsePCA", "POP", "ExtendedEOF", "OPA", "HilbertEOF"):
         out.append({"cls": cls, "ops": ["fit5", "components", "fit6", "components", "scores", "inverse", "fit5", "scores"]})
+    out.append({"cls": "multi.CCA", "ops": ["fit6", "scores", "fit5", "scores", "components", "transform5", "fit6", "scores", "components"]})
+    out.append({"cls": "multi.CCA", "ops": ["fit5", "components", "fit0", "scores", "transform0"]})
     for cls in ("EOF", "SparsePCA", "POP", "MCA", "CCA"):
         out.append({"cls": cls, "ops": ["fit0", "transformL", "components", "scores", "inverse", "metrics"]})
     for cls in ("EOF", "MCA", "SparsePCA", "EOF"):
